@@ -888,7 +888,7 @@ func genHTTPOps(rc *RunCtx, c PCfg) []Op {
 	var ops []Op
 	add := func(o Op) { o.Uid = len(ops); ops = append(ops, o) }
 	routes := []string{"/pub", "/mpub", "/topic/create", "/topic/delete", "/topic/empty", "/topic/pause", "/topic/unpause",
-		"/channel/create", "/channel/delete", "/channel/empty", "/channel/pause", "/channel/unpause", "/stats", "/ping", "/info", "/config/log_level", "/config/nope", "/nope", "/"}
+		"/channel/create", "/channel/delete", "/channel/empty", "/channel/pause", "/channel/unpause", "/stats", "/ping", "/info", "/config/log_level", "/config/nope", "/nope", "/", "/debug/setblockrate", "/debug/pprof/cmdline"}
 	for len(ops) < n {
 		switch r.Weighted([]int{50, 30, 3}) {
 		case 0:
@@ -946,12 +946,35 @@ func (w *pWorld) execHTTPReq(op Op) {
 	}
 	var body []byte
 	expect := []int{}
-	needPOST := route != "/stats" && route != "/ping" && route != "/info" && !strings.HasPrefix(route, "/config") && route != "/nope" && route != "/"
+	needPOST := route != "/stats" && route != "/ping" && route != "/info" && !strings.HasPrefix(route, "/config") && route != "/nope" && route != "/" && !strings.HasPrefix(route, "/debug")
 	exists := w.topics[topic]
 	chExists := w.chans[topic+"/"+ch]
 	switch {
 	case route == "/nope" || route == "/":
 		expect = []int{404}
+	case route == "/debug/setblockrate":
+		// PUT with an integer rate (0 = profiling off, which is what it already is)
+		switch op.C % 4 {
+		case 0, 1:
+			q.Set("rate", "0")
+		case 2:
+			q.Set("rate", "often")
+		}
+		switch {
+		case method != "PUT":
+			expect = []int{405}
+		case op.C%4 <= 1:
+			expect = []int{200}
+		default:
+			expect = []int{400}
+		}
+		w.rc.Probe("debug_route_requests")
+	case route == "/debug/pprof/cmdline":
+		expect = []int{405}
+		if method == "GET" {
+			expect = []int{200}
+		}
+		w.rc.Probe("debug_route_requests")
 	case route == "/config/nope":
 		expect = []int{400, 405}
 		if method == "GET" {
@@ -1185,7 +1208,9 @@ func (w *pWorld) execHTTPReq(op Op) {
 		w.violate("C10", "wrong-status", "%s %s (%d byte body) answered %d %s, documented %v", method, pathq, len(body), resp.Status, trunc(resp.Body, 80), expect)
 		return
 	}
-	if resp.Status >= 400 && resp.Status != 405 && resp.Status != 404 || (resp.Status == 404 && needPOST) {
+	if strings.HasPrefix(route, "/debug") {
+		// plain-text routes: an error is a line of text, not a JSON document
+	} else if resp.Status >= 400 && resp.Status != 405 && resp.Status != 404 || (resp.Status == 404 && needPOST) {
 		var e struct {
 			Message string `json:"message"`
 		}
